@@ -51,6 +51,11 @@ CLAIMED['C02'] = dict(
         'Correspondence: all operator chains of depth <= 2/3 over the 14 dunders + column selection with int/float scalars, random derivation trees with parents re-read after every derivation, on flat/npy/array/cbin and 6 dtypes; value AND dtype compared with eager NumPy; the Lean model supplies which cells and which operators in which order.',
    note='Operator semantics and result dtypes are NumPy\'s (not modelled: the theorem is parametric); float pow restricted to exponents {0,1,2}; histories on which eager NumPy raises are discarded.',
    tech='Lean 4 theorems (map/commutation lemmas, heap frame invariant by induction over derivations) + differential correspondence against /repo', ref='§5 C02')
+CLAIMED['C17'] = dict(
+   text='Theorems: kept chunks are whole grid intervals at the stride max(1, ceil(n_chunks/k)) starting with the first, at most k; the searchsorted-parity test on the flattened kept bounds (touching intervals included) is exactly membership in a kept interval; and for EVERY random choice satisfying the contract of np.random.choice the selection is strictly increasing, contains only spikes of requested clusters inside kept chunks / the subset when asked, per requested cluster all eligible spikes when they number at most the count (or no positive count) and exactly count otherwise, nothing for unknown clusters. '
+        'Correspondence: exhaustive tiny grids and random cases (int64/uint64/float64 times, spikes on chunk bounds, unknown/repeated requested ids, subset on/off) against the real SpikeSelector; the Lean executable decides the predicate on the real random output.',
+   note='The contract of np.random.choice(replace=False) is a hypothesis; NumPy global RNG seeded per case.',
+   tech='Lean 4 theorems quantified over all admissible choice functions + correspondence in which Lean decides the spec predicate on the real output', ref='§5 C17')
 REASONS = {}
 
 checks = []
